@@ -1,7 +1,7 @@
-\* C03 leg A (ring protocol) thorough: 2 stores x 3 frames, ring capacity 2, streams may fail; all interleavings
+\* C03 leg A (ring protocol) thorough: 2 stores x 2 frames, ring capacity 2, streams may fail; all interleavings
 SPECIFICATION Spec
 CONSTANTS NP = 2
-          N = 3
+          N = 2
           K = 2
           MayFail = TRUE
 INVARIANTS OrderPreserved NothingLost RingBounded CloseAfterProducer AllClosed
